@@ -17,12 +17,13 @@ T_asb == <<97, 47, 98>>  T_t1 == <<126, 49>>  T_t01 == <<126, 48, 49>>  T_ee == 
 T_sq == <<39>>  T_dq == <<34>>  T_sp == <<32>>  T_10 == <<49, 48>>  T_2 == <<50>> T_1d0 == <<49, 46, 48>>  T_1e0 == <<49, 101, 48>>
 T_1fw0 == <<49, 65296>>  T_1ar3 == <<49, 1635>>  T_m0 == <<45, 48>>  T_x == <<120>>  T_pct == <<37, 50, 53>>  T_c1 == <<1>>  T_nl == <<10>>  T_arab1 == <<1633>>
 T_1nl == <<49, 10>>  T_nl1 == <<10, 49>>  T_1cr == <<49, 13>>  T_0nl == <<48, 10>>     \* a canonical integer with a line break before or after it (int() strips them, `$` matches before a final line feed)
+T_m1 == <<45, 49>>  T_m25 == <<45, 50, 53>>      \* members named like negative integers: names (the first clause speaks of every name)
 T_sur == <<55296>>      \* an unpaired surrogate (JSON text can spell it: "\\ud800")
 T_lim == <<57, 48, 48, 55, 49, 57, 57, 50, 53, 52, 55, 52, 48, 57, 57, 49>>      \* 2^53 - 1, the largest integer the implementation reads as an index
 
 \* member names of every delicate kind (no backslash: escape decoding stays on)
 Names == <<T_a, T_1, T_0, T_01, T_p1, T_s1, T_1s, T_1u0, T_fw1, T_e, T_tilde, T_slash, T_asb, T_t1, T_t01,
-           T_ee, T_emoji, T_sq, T_dq, T_sp, T_10, T_1d0, T_1e0, T_m0, T_pct, T_c1, T_nl, T_arab1, T_1fw0, Dash, T_lim, T_sur, T_1nl, T_nl1, T_1cr>>
+           T_ee, T_emoji, T_sq, T_dq, T_sp, T_10, T_1d0, T_1e0, T_m0, T_pct, T_c1, T_nl, T_arab1, T_1fw0, Dash, T_lim, T_sur, T_1nl, T_nl1, T_1cr, T_m1, T_m25>>
 
 AllNames == Obj(Names, [i \in 1..Len(Names) |-> IntV(i)])
 Arr4 == Arr(<<IntV(0), Str(<<120, 121>>), Arr(<<>>), Obj(<<T_1>>, <<Null>>)>>)
